@@ -35,7 +35,8 @@ package main
 //     `make`, `new`, `nil`, a literal, a conversion of one of these, `append` to a fresh slice, or a
 //     call of a library function all of whose returns are fresh (fixpoint). Flow-insensitive.
 //  4. Synchronisation class of a row, read off the enclosing code:
-//       syncMap   – mutating method of a sync.Map; syncMapCasNil – `CompareAndSwap(k, nil, v)` (stores nothing for
+//       syncMap   – unconditionally mutating method of a sync.Map (Store, Swap, Delete …: last writer wins);
+//                   syncMapLoadOrStore – LoadOrStore (first writer wins); syncMapCasNil – `CompareAndSwap(k, nil, v)` (stores nothing for
 //                   an absent key); syncMapLoad – `Load` / `Range` (a READ whose value the caller uses: listed so
 //                   that "this cache is read but never filled" is an obligation on the table)
 //       mutex     – between `m.Lock()` and `m.Unlock()` (or after `m.Lock(); defer m.Unlock()`) of a
@@ -162,6 +163,7 @@ func loadSwx(repo string) (*swx, error) {
 }
 
 type swx struct {
+	escapes       []swRow // document payloads stored into caller-owned values (class payloadEscape)
 	perCallWrites map[string]int // per-call struct type (perCallTypes) → writes to its fields in reachable functions
 	extraRoots []string // further entry points (table ValidateWrites: document validation, router construction)
 	pkgList   []*packages.Package
@@ -446,7 +448,8 @@ func stdFresh(f *types.Func) bool {
 	}
 	switch f.Pkg().Path() + "." + f.Name() {
 	case "slices.Clone", "maps.Clone", "slices.Collect", "slices.Sorted", "slices.Concat", "slices.Repeat",
-		"strings.Split", "strings.SplitN", "strings.Fields", "strings.FieldsFunc", "bytes.Clone":
+		"strings.Split", "strings.SplitN", "strings.Fields", "strings.FieldsFunc", "bytes.Clone",
+		"github.com/mohae/deepcopy.Copy":
 		return true
 	}
 	return false
@@ -1501,6 +1504,11 @@ func (x *swx) scanFunc(fi *fnInfo) []swCand {
 				}
 				record(n, l, n, "")
 			}
+			if len(n.Lhs) == len(n.Rhs) {
+				for i, l := range n.Lhs {
+					x.noteEscape(fi, n, l, n.Rhs[i])
+				}
+			}
 		case *ast.IncDecStmt:
 			record(n, n.X, n, "")
 		case *ast.CallExpr:
@@ -1557,8 +1565,10 @@ func (x *swx) scanFunc(fi *fnInfo) []swCand {
 				}
 				if strings.HasSuffix(sig.Recv().Type().String(), "sync.Map") {
 					switch f.Name() {
-					case "Store", "LoadOrStore", "LoadAndDelete", "Delete", "Swap", "CompareAndDelete", "Clear":
-						record(n, sel.X, curStmt, "syncMap")
+					case "LoadOrStore":
+						record(n, sel.X, curStmt, "syncMapLoadOrStore") // publishes only when absent: the first writer wins
+					case "Store", "LoadAndDelete", "Delete", "Swap", "CompareAndDelete", "Clear":
+						record(n, sel.X, curStmt, "syncMap") // unconditional: the last writer wins
 					case "CompareAndSwap":
 						// CompareAndSwap(k, nil, v) never stores for an ABSENT key (and no value is ever nil): inert
 						if id, ok := n.Args[1].(*ast.Ident); ok && len(n.Args) == 3 && id.Name == "nil" {
@@ -1592,12 +1602,14 @@ func (x *swx) notePerCall(p *packages.Package, lhs ast.Expr) {
 				if pt, ok := t.Underlying().(*types.Pointer); ok {
 					t = pt.Elem()
 				}
-				if nt, ok := t.(*types.Named); ok && nt.Obj().Pkg() != nil && nt.Obj().Pkg().Path() == kinPath+"/openapi3" && perCallTypes[nt.Obj().Name()] {
-					if x.perCallWrites == nil {
-						x.perCallWrites = map[string]int{}
+				if nt, ok := t.(*types.Named); ok && nt.Obj().Pkg() != nil && x.pkgOf[nt.Obj().Pkg()] != nil {
+					if _, isStruct := nt.Underlying().(*types.Struct); isStruct {
+						if x.perCallWrites == nil {
+							x.perCallWrites = map[string]int{}
+						}
+						x.perCallWrites[swTypeName(nt)]++
+						return
 					}
-					x.perCallWrites[nt.Obj().Name()]++
-					return
 				}
 			}
 			e = n.X
@@ -1613,60 +1625,75 @@ func (x *swx) notePerCall(p *packages.Package, lhs ast.Expr) {
 	}
 }
 
-// perCallRows: for every type of perCallTypes — is it reachable through the fields of a document struct (then it
+func swTypeName(nt *types.Named) string {
+	return strings.TrimPrefix(nt.Obj().Pkg().Path(), kinPath+"/") + "." + nt.Obj().Name()
+}
+
+// perCallRows: for every struct type of the library that reachable code writes without the write being taken for a
+// write to shared state (and for every type of perCallTypes) — is it reachable through the fields of a document struct (then it
 // would be shared with the document), where is it allocated (composite literal / new), how many writes to it were
 // set aside in reachable functions.
 func (x *swx) perCallRows() []string {
-	var o3 *packages.Package
-	for _, p := range x.pkgList {
-		if p.PkgPath == kinPath+"/openapi3" {
-			o3 = p
-		}
-	}
-	if o3 == nil {
-		return nil
-	}
-	// types reachable from document structs through fields / elements / pointers
+	// struct types reachable from the shared structs (document, routers, Validator/Options) through fields
 	inDoc := map[string]bool{}
 	seen := map[types.Type]bool{}
-	var walk func(t types.Type)
-	walk = func(t types.Type) {
+	var walk func(t types.Type, top bool)
+	walk = func(t types.Type, top bool) {
 		if t == nil || seen[t] {
 			return
 		}
 		seen[t] = true
-		if nt, ok := t.(*types.Named); ok && nt.Obj().Pkg() != nil && nt.Obj().Pkg().Path() == kinPath+"/openapi3" {
-			if perCallTypes[nt.Obj().Name()] {
-				inDoc[nt.Obj().Name()] = true
-				return
+		if nt, ok := t.(*types.Named); ok && nt.Obj().Pkg() != nil && x.pkgOf[nt.Obj().Pkg()] != nil && !top {
+			if _, isStruct := nt.Underlying().(*types.Struct); isStruct && !x.isDocStruct(nt) {
+				inDoc[swTypeName(nt)] = true
 			}
 		}
 		switch u := t.Underlying().(type) {
 		case *types.Pointer:
-			walk(u.Elem())
+			walk(u.Elem(), false)
 		case *types.Slice:
-			walk(u.Elem())
+			walk(u.Elem(), false)
 		case *types.Array:
-			walk(u.Elem())
+			walk(u.Elem(), false)
 		case *types.Map:
-			walk(u.Key())
-			walk(u.Elem())
+			walk(u.Key(), false)
+			walk(u.Elem(), false)
 		case *types.Struct:
 			for i := 0; i < u.NumFields(); i++ {
-				walk(u.Field(i).Type())
+				walk(u.Field(i).Type(), false)
 			}
 		}
 	}
-	scope := o3.Types.Scope()
-	for _, nm := range scope.Names() {
-		if tn, ok := scope.Lookup(nm).(*types.TypeName); ok && !perCallTypes[nm] && !tn.IsAlias() {
-			if _, isStruct := tn.Type().Underlying().(*types.Struct); isStruct {
-				walk(tn.Type())
+	declared := map[string]bool{}
+	// … and from the package-level variables (a cache of descriptors makes the descriptor type process-wide state)
+	inGlobal := map[string]bool{}
+	for _, p := range x.pkgList {
+		scope := p.Types.Scope()
+		for _, nm := range scope.Names() {
+			if v, ok := scope.Lookup(nm).(*types.Var); ok {
+				saveDoc, saveSeen := inDoc, seen
+				inDoc, seen = inGlobal, map[types.Type]bool{}
+				walk(v.Type(), false)
+				inDoc, seen = saveDoc, saveSeen
+			}
+		}
+	}
+	for _, p := range x.pkgList {
+		scope := p.Types.Scope()
+		for _, nm := range scope.Names() {
+			if tn, ok := scope.Lookup(nm).(*types.TypeName); ok && !tn.IsAlias() {
+				if nt, ok := tn.Type().(*types.Named); ok {
+					declared[swTypeName(nt)] = true
+					if x.isDocStruct(nt) {
+						walk(nt, true)
+					}
+				}
 			}
 		}
 	}
 	// allocation sites
 	alloc := map[string]map[string]bool{}
+	allocReach := map[string]bool{}
 	for _, sf := range x.funcs {
 		info := sf.pkg.TypesInfo
 		ast.Inspect(sf.decl.Body, func(n ast.Node) bool {
@@ -1683,41 +1710,101 @@ func (x *swx) perCallRows() []string {
 					}
 				}
 			}
-			if nt, ok := t.(*types.Named); ok && nt.Obj().Pkg() != nil && nt.Obj().Pkg().Path() == kinPath+"/openapi3" && perCallTypes[nt.Obj().Name()] {
-				if alloc[nt.Obj().Name()] == nil {
-					alloc[nt.Obj().Name()] = map[string]bool{}
+			if nt, ok := t.(*types.Named); ok && nt.Obj().Pkg() != nil && x.pkgOf[nt.Obj().Pkg()] != nil {
+				k := swTypeName(nt)
+				if alloc[k] == nil {
+					alloc[k] = map[string]bool{}
 				}
-				alloc[nt.Obj().Name()][funcName(sf.obj)] = true
+				alloc[k][funcName(sf.obj)] = true
+				if x.reachable[sf.obj] {
+					allocReach[k] = true
+				}
 			}
 			return true
 		})
 	}
-	var names []string
+	names := map[string]bool{}
 	for n := range perCallTypes {
-		names = append(names, n)
+		names["openapi3."+n] = true
 	}
-	sort.Strings(names)
+	for n := range x.perCallWrites {
+		names[n] = true
+	}
+	var sorted []string
+	for n := range names {
+		sorted = append(sorted, n)
+	}
+	sort.Strings(sorted)
 	var rows []string
-	for _, n := range names {
+	for _, n := range sorted {
 		var sites []string
 		for f := range alloc[n] {
 			sites = append(sites, f)
 		}
 		sort.Strings(sites)
-		declared := scope.Lookup(n) != nil
+		if len(sites) > 4 {
+			sites = append(sites[:4], fmt.Sprintf("… %d more", len(sites)-4))
+		}
 		var q []string
 		for _, s := range sites {
 			q = append(q, shar_leanStr(s))
 		}
-		reach := false
-		for _, sf := range x.funcs {
-			if alloc[n][funcName(sf.obj)] && x.reachable[sf.obj] {
-				reach = true
-			}
-		}
-		rows = append(rows, fmt.Sprintf("⟨%s, %v, %v, %d, %v, [%s]⟩", shar_leanStr(n), declared, inDoc[n], x.perCallWrites[n], reach, strings.Join(q, ", ")))
+		rows = append(rows, fmt.Sprintf("⟨%s, %v, %v, %v, %d, %v, [%s]⟩", shar_leanStr(n), declared[n], inDoc[n], inGlobal[n], x.perCallWrites[n], allocReach[n], strings.Join(q, ", ")))
 	}
 	return rows
+}
+
+// isPayload: `any`, or a map / slice of it — the static type of default / example / enum / extension values.
+func isPayload(t types.Type) bool {
+	switch u := t.Underlying().(type) {
+	case *types.Interface:
+		return u.NumMethods() == 0
+	case *types.Map:
+		return isPayload(u.Elem())
+	case *types.Slice:
+		return isPayload(u.Elem())
+	}
+	return false
+}
+
+// noteEscape: `C[k] = e` / `C.f = e` where e is an `any`-typed payload that comes out of the shared document (not a
+// copy) and C is NOT document state and not a container allocated in this function: the document's own value becomes
+// part of a caller's value (the request body being validated), and whatever the call later writes into that value
+// — nested defaults — is written into the document (finding F-C15-1: `value[propName] = dflt`). Row class
+// `payloadEscape`.
+func (x *swx) noteEscape(fi *fnInfo, at ast.Node, lhs, rhs ast.Expr) {
+	p := fi.sf.pkg
+	switch ast.Unparen(lhs).(type) {
+	case *ast.IndexExpr, *ast.SelectorExpr:
+	default:
+		return
+	}
+	tv, ok := p.TypesInfo.Types[rhs]
+	if !ok || tv.Type == nil || !isPayload(tv.Type) || x.freshExpr(p, rhs, fi.lf) {
+		return
+	}
+	os, doc := x.originsOf(fi, rhs)
+	if !doc || len(os) == 0 {
+		return
+	}
+	w := x.walkLHS(p, lhs)
+	if w.unread || w.docField {
+		return // a write to the document itself: an ordinary row
+	}
+	id, ok := w.root.(*ast.Ident)
+	if !ok {
+		return
+	}
+	obj := p.TypesInfo.Uses[id]
+	if obj == nil {
+		obj = p.TypesInfo.Defs[id]
+	}
+	v, _ := obj.(*types.Var)
+	if v == nil || fi.lf[v] || fi.docAlias[v] {
+		return
+	}
+	file, line := x.pos(at.Pos())
+	x.escapes = append(x.escapes, swRow{file: file, line: line, fn: funcName(fi.sf.obj), target: x.text(at), root: "alias", sync: "payloadEscape"})
 }
 
 // storeIfAbsent: the write `M[k] = …` at pos sits in the absent-branch of a comma-ok lookup of M[k].
@@ -1786,6 +1873,14 @@ func shar_leanStr(s string) string {
 }
 
 func (x *swx) emit() string {
+	seenEsc := map[string]bool{}
+	for _, r := range x.escapes {
+		k := fmt.Sprintf("%s:%d", r.file, r.line)
+		if !seenEsc[k] {
+			seenEsc[k] = true
+			x.rows = append(x.rows, r)
+		}
+	}
 	sort.Slice(x.rows, func(i, j int) bool {
 		a, b := x.rows[i], x.rows[j]
 		if a.file != b.file {
